@@ -1,6 +1,6 @@
 (* Properties/C01.v -- Encode -> symbol -> decode returns exactly the original bytes (what is a theorem so far). *)
 From Coq Require Import Arith ZArith NArith List Bool.
-From DM Require Import Generated.Symbols Spec.GF256 Model.Outcome Model.SymbolList Model.RSEnc Model.Dec Model.Enc Model.Api
+From DM Require Import Spec.Stream16022 Proofs.EncAscii Generated.Symbols Generated.ModeTables Model.PlannerRun Spec.GF256 Model.Outcome Model.SymbolList Model.RSEnc Model.Dec Model.Enc Model.Api
   Proofs.Pipeline.
 Import ListNotations.
 
@@ -31,5 +31,21 @@ Proof.
 Qed.
 Print Assumptions C01_routes_agree.
 
-(* NOT a theorem yet: the data layer, decode_data (data codewords of encode) = Ok input (properties C02 + C04
-   composed).  The check evaluates it on every case: encode, decode both ways, compare with the input. *)
+(* Data layer, first full case: whenever the planner's answer is "stay in ASCII" (the plan [(0, Ascii)]) -- e.g. the
+   answer of the crate's planner when only ASCII is enabled, see the Example -- then for EVERY byte string and symbol
+   list the data codewords are the rendering of a legal script of Spec/Stream16022.v and decode back to the input
+   (encoder theorem Proofs/EncAscii.v composed with the decoder theorem C04). *)
+Theorem C01_ascii_plan_roundtrip : forall optimize_fn data symbols modes cw s,
+  optimize_fn data 0 symbols modes = Ok (Some [(0, Ascii)]) -> bytes_ok data = true ->
+  encode_data_internal optimize_fn data symbols None modes false false = Ok (cw, s) ->
+  decode_data cw = Ok data.
+Proof. intros o d sy m cw s HP OK H. exact (proj2 (ascii_plan_roundtrip o d sy m cw s HP OK H)). Qed.
+Print Assumptions C01_ascii_plan_roundtrip.
+
+Example C01_ascii_plan_example :
+  optimize_fn stable_sorter [72; 105; 49; 50; 51; 200] 0 sl_default 1 = Ok (Some [(0, Ascii)]).
+Proof. vm_compute. reflexivity. Qed.
+
+(* NOT a theorem for the other plans: decode_data (data codewords of encode) = Ok input under arbitrary plans of the
+   optimiser (the encoder side of C02 for C40/Text/X12/EDIFACT/Base256 runs).  The check evaluates it on every case:
+   encode, decode both ways, compare with the input. *)
